@@ -566,7 +566,7 @@ class Element(Node):
         f.write(('<'+self.tagName))
         if level == 0:
             for namespace, prefix in self.namespaces.items():
-                f.write(u' xmlns:' + prefix + u'="'+ _sanitize(str(namespace))+'"')
+                f.write(u' xmlns:' + prefix + u'=' + _quoteattr(unicode(namespace)))
         for qname in self.attributes.keys():
             prefix = self.get_nsprefix(qname[0])
             f.write(u' '+_sanitize(str(self._prefixed(prefix, qname[1])))+u'='+_quoteattr(unicode(self.attributes[qname])))
@@ -584,7 +584,7 @@ class Element(Node):
         f.write(u'<'+self.tagName)
         if level == 0:
             for namespace, prefix in self.namespaces.items():
-                f.write(u' xmlns:' + prefix + u'="'+ _sanitize(str(namespace))+u'"')
+                f.write(u' xmlns:' + prefix + u'=' + _quoteattr(unicode(namespace)))
         for qname in self.attributes.keys():
             prefix = self.get_nsprefix(qname[0])
             f.write(u' '+_sanitize(unicode(self._prefixed(prefix, qname[1])))+u'='+_quoteattr(unicode(self.attributes[qname])))
